@@ -48,8 +48,26 @@ mod kani_c11 {
         (cx, own)
     }
 
+    /// with an empty socket set no UDP socket is consulted (see tcp_accepts_not_called)
+    #[cfg(feature = "socket-udp")]
+    fn udp_accepts_not_called<'a>(_s: &crate::socket::udp::Socket<'a>, _cx: &mut InterfaceInner, _ip: &IpRepr, _r: &UdpRepr) -> bool where 'a: 'a {
+        panic!("C11: no socket exists, udp::Socket::accepts is not reached")
+    }
+    #[cfg(feature = "socket-udp")]
+    fn udp_process_not_called<'a>(_s: &mut crate::socket::udp::Socket<'a>, _cx: &mut InterfaceInner, _m: PacketMeta, _ip: &IpRepr, _r: &UdpRepr, _p: &[u8]) where 'a: 'a {
+        panic!("C11: no socket exists, udp::Socket::process is not reached")
+    }
+    /// with an empty socket set no socket is consulted: the socket-level functions "are not called" (a panic if they were); this keeps
+    /// the unrolled copies of the socket loop (whose bound CBMC cannot fold) trivial
+    fn tcp_accepts_not_called<'a>(_s: &crate::socket::tcp::Socket<'a>, _cx: &mut InterfaceInner, _ip: &IpRepr, _r: &TcpRepr) -> bool where 'a: 'a {
+        panic!("C11: no socket exists, tcp::Socket::accepts is not reached")
+    }
+    fn tcp_process_not_called<'a>(_s: &mut crate::socket::tcp::Socket<'a>, _cx: &mut InterfaceInner, _ip: &IpRepr, _r: &TcpRepr) -> Option<(IpRepr, TcpRepr<'static>)> where 'a: 'a {
+        panic!("C11: no socket exists, tcp::Socket::process is not reached")
+    }
     /// C11/C10: shape of the reset for an unmatched unicast segment: never in reply to a reset, sourced from the addressed address
     #[kani::proof] #[kani::stub(crate::wire::TcpRepr::parse, tcp_parse_any)] #[kani::unwind(6)]
+    #[kani::stub(crate::socket::tcp::Socket::accepts, tcp_accepts_not_called)] #[kani::stub(crate::socket::tcp::Socket::process, tcp_process_not_called)]
     fn c11_process_tcp_rst_shape_v4() {
         let mut cx = InterfaceInner::kani_ctx(Instant::from_millis(0), 1500, kani::any(), false);
         cx.ip_addrs.push(IpCidr::Ipv4(Ipv4Cidr::new(Ipv4Address::new(10, 0, 0, 1), 24))).unwrap();
@@ -172,6 +190,7 @@ mod kani_c11 {
     /// C11: UDP datagram with no listener: port-unreachable only for unicast destinations (IPv4)
     #[cfg(any(feature = "socket-udp", feature = "socket-dns"))]
     #[kani::proof] #[kani::stub(crate::wire::UdpRepr::parse, udp_parse_any)] #[kani::unwind(10)]
+    #[kani::stub(crate::socket::udp::Socket::accepts, udp_accepts_not_called)] #[kani::stub(crate::socket::udp::Socket::process, udp_process_not_called)]
     fn c11_process_udp_no_listener_v4() {
         let (mut cx, _own) = iface_v4();
         let mut storage: [SocketStorage; 0] = [];
@@ -207,9 +226,11 @@ mod kani_c11 {
     }
     #[cfg(all(feature = "proto-ipv6", any(feature = "socket-udp", feature = "socket-dns")))]
     #[kani::proof] #[kani::stub(crate::wire::UdpRepr::parse, udp_parse_any)] #[kani::unwind(18)]
+    #[kani::stub(crate::socket::udp::Socket::accepts, udp_accepts_not_called)] #[kani::stub(crate::socket::udp::Socket::process, udp_process_not_called)]
     fn c11_process_udp_no_listener_v6() { c11_process_udp_no_listener_v6_impl(false) }
     #[cfg(all(feature = "proto-ipv6", any(feature = "socket-udp", feature = "socket-dns")))]
     #[kani::proof] #[kani::stub(crate::wire::UdpRepr::parse, udp_parse_any)] #[kani::unwind(18)]
+    #[kani::stub(crate::socket::udp::Socket::accepts, udp_accepts_not_called)] #[kani::stub(crate::socket::udp::Socket::process, udp_process_not_called)]
     fn c11_process_udp_no_listener_v6_xk() { c11_process_udp_no_listener_v6_impl(true) }
 
     // ------------------------------------------------------------------ IP-layer filters (source sanity, destination ownership)
